@@ -20,7 +20,9 @@ HERE = os.path.dirname(os.path.abspath(__file__))
 VERIF = os.path.dirname(HERE)
 LEAN_DIR = os.path.join(VERIF, "lean")
 REPO = os.path.abspath(os.environ.get("VERIF_REPO", "/repo"))
-EVIDENCE_DIR = os.path.join(VERIF, "evidence")
+# trial runs against scratch trees (seeded changes) write their evidence elsewhere so that /verif/evidence always
+# describes /repo itself
+EVIDENCE_DIR = os.environ.get("VERIF_EVIDENCE_DIR") or os.path.join(VERIF, "evidence")
 REPLAY_DIR = os.path.join(VERIF, "replays")
 KNOWN_FINDINGS = os.path.join(VERIF, "known_findings.txt")
 ALLOWED_AXIOMS = {"propext", "Classical.choice", "Quot.sound"}
